@@ -3,7 +3,7 @@
     answers) and the witnesses stay in place (scan files are never written - C03; a torrent's own
     export files only ever receive correct bytes - C01). *)
 From TB Require Import Base Decimal BencodeModel TorrentModel TorrentProofs PathModel FsModel SolverModel FinderModel RunModel
-                       SolverProofs RunProofs FsProofs FaultProofs PreludeProofs TableProofs FinderProofs SearchProofs PresentProofs Generated GeneratedObligations SystemModel SystemProofs GlueProofs EstablishProofs CompleteProofs RunExample.
+                       SolverProofs RunProofs FsProofs FaultProofs PreludeProofs TableProofs FinderProofs SearchProofs PresentProofs Generated GeneratedObligations SystemModel SystemProofs GlueProofs EstablishProofs CompleteProofs RunExample RerunProofs.
 From Coq Require Import Permutation Sorted.
 Local Open Scope N_scope.
 
@@ -70,6 +70,27 @@ Example C02_available_run_exists :
   exists s, freachA ex_content ex_pc ex_wit {| s_fs := ex_f0; s_pool := ex_pool |} s /\ nth_error (s_pool s) 0 = Some (Ret Success).
 Proof. exact ex_freachA. Qed.
 
+(** ... and "remains so during the run" need not be assumed when the sources cannot be damaged by
+    the run itself: [avail_stable] asks, at the START only, that each witness candidate is a file no
+    export path of the table names, or an export image whose bytes at that range already verify for
+    its own entry, and that the table wants no file where a directory is needed (nor the converse).
+    Then every state of the run is available (RerunProofs.stable_SI), and the piece is recovered. *)
+Theorem C02_stably_available_means_recovered H content es pc wit s s' i o :
+  table_functional content es -> wf_piece content pc -> Forall (fun sg => In (ps_entry sg) es) (w_segs pc) ->
+  cr H content pc -> H (piece_bytes content pc) = w_hash pc -> Forall (pad_zero content) (w_segs pc) ->
+  w_segs pc <> [] -> (forall sg, w_segs pc = [sg] -> ps_len sg <> 0) ->
+  alias_free content es (s_fs s) -> Forall (pgood content es) (s_pool s) -> avail_stable content es pc wit (s_fs s) ->
+  nth_error (s_pool s) i = Some (solve_prog H pc) -> freach s s' -> nth_error (s_pool s') i = Some (Ret o) ->
+  o = Success /\ forall sg, In sg (w_segs pc) -> e_pad (ps_entry sg) = false -> holds_seg content (s_fs s') sg.
+Proof. exact (fun Hfun Hwf Hall Hcr Hhash Hpadz Hne Hone => stable_available_means_recovered H content es Hfun pc Hwf Hall Hcr Hhash Hpadz Hne Hone wit s s' i o). Qed.
+
+Theorem C02_stable_availability_is_invariant content es pc wit f0 f :
+  SI content es f0 f -> avail_stable content es pc wit f0 -> avail_stable content es pc wit f.
+Proof. exact (stable_SI content es pc wit f0 f). Qed.
+
+Example C02_stably_available_somewhere : avail_stable ex_content ex_es ex_pc ex_wit ex_f0.
+Proof. exact ex_stable. Qed.
+
 Print Assumptions C02_candidates_complete.
 Print Assumptions C02_candidates_sound.
 Print Assumptions C02_witnesses_give_combination.
@@ -77,3 +98,5 @@ Print Assumptions C02_search_exhaustive.
 Print Assumptions C02_available_piece_recovered.
 Print Assumptions C02_rejection_only_without_candidates.
 Print Assumptions C02_available_means_recovered.
+Print Assumptions C02_stably_available_means_recovered.
+Print Assumptions C02_stable_availability_is_invariant.
